@@ -50,7 +50,7 @@ ASSUMPTIONS = [
     "captured messages of test_lrrp.py / test_mbxml.py",
     "'inherited constant table' is covered for the table implied by the document id only; the CDT_LEN=1 form is not generated",
     "Reserved (0x00-0x03) and ARRP (0x16-0x27) document ids have no token tables in the library and are outside the domain",
-    "termination bound: 20 s per parse in-process (signal.setitimer); after a first time-out in a worker process the bound "
+    "termination bound: 20 s of CPU time per parse in-process (signal.setitimer, ITIMER_VIRTUAL - independent of machine load); after a first time-out in a worker process the bound "
     "for later cases of that worker is 1 s so that shrinking a hang stays feasible (both >= 3 orders of magnitude above the "
     "normal cost)",
     "lookup API: attribute values are integers (never None); tokens whose definition requires an attribute value always get "
@@ -150,16 +150,18 @@ def bounded(fn, *a, allowed=(), clause="no_unexpected_exception"):
     def handler(signum, frame):
         raise _Timeout()
 
-    old = signal.signal(signal.SIGALRM, handler)
-    signal.setitimer(signal.ITIMER_REAL, secs)
+    # CPU time of this process, not wall clock: a parse that does not terminate spins (the parser does no I/O), while
+    # machine load or a suspended process can never turn a terminating parse into a "time-out"
+    old = signal.signal(signal.SIGVTALRM, handler)
+    signal.setitimer(signal.ITIMER_VIRTUAL, secs)
     try:
         return call(fn, *a, allowed=allowed, clause=clause)
     except _Timeout:
         _TIMEOUT_SEEN = True
-        raise Fail("parse_terminates", f"no result after {secs} s", "returns or raises (normal cost < 1 ms)")
+        raise Fail("parse_terminates", f"no result after {secs} s of CPU time", "returns or raises (normal cost < 1 ms)")
     finally:
-        signal.setitimer(signal.ITIMER_REAL, 0)
-        signal.signal(signal.SIGALRM, old if old is not None else signal.SIG_DFL)
+        signal.setitimer(signal.ITIMER_VIRTUAL, 0)
+        signal.signal(signal.SIGVTALRM, old if old is not None else signal.SIG_DFL)
 
 
 # ---------------------------------------------------------------------------------------------- C14 attribution
